@@ -134,7 +134,7 @@ Definition s_http_root : list N := s_http ++ s_css ++ [104; 47].              (*
 Definition pushes_cost (st : scheme_type) (ps : N) (root : list N) (n : nat) : N :=
   snd (psm_extend_loop_c true st ps root (repeat [97] n)).
 
-(* n pushes of "a": on file:/// at least n^2 steps; on http://h/ at most 12 n + 1 *)
+(* n pushes of "a": on file:/// at least n^2 steps; on http://h/ at most 14 n + 1 *)
 Lemma pushes_file_quadratic_50_100_200 :
   50 * 50 <= pushes_cost STFile 7 s_file_root 50
   /\ 100 * 100 <= pushes_cost STFile 7 s_file_root 100
@@ -143,9 +143,9 @@ Lemma pushes_file_quadratic_50_100_200 :
 Proof. vm_compute. repeat split; discriminate. Qed.
 
 Lemma pushes_http_linear_50_100_200 :
-  pushes_cost STSpecialNotFile 8 s_http_root 50 <= 12 * 50 + 1
-  /\ pushes_cost STSpecialNotFile 8 s_http_root 100 <= 12 * 100 + 1
-  /\ pushes_cost STSpecialNotFile 8 s_http_root 200 <= 12 * 200 + 1.
+  pushes_cost STSpecialNotFile 8 s_http_root 50 <= 14 * 50 + 1
+  /\ pushes_cost STSpecialNotFile 8 s_http_root 100 <= 14 * 100 + 1
+  /\ pushes_cost STSpecialNotFile 8 s_http_root 200 <= 14 * 200 + 1.
 Proof. vm_compute. repeat split; discriminate. Qed.
 
 Lemma pushes_results :
